@@ -53,3 +53,8 @@ def pointwise_lre(X, Y, n_local_points, train_idx, test_idx, scaler, estimator):
 
 def root_mean_square(pointwise):
     return np.linalg.norm(pointwise) / np.sqrt(len(pointwise))
+
+
+def default_alphas():
+    # documented default of the reconstruction measures: relative singular-value cut-offs
+    return np.geomspace(1e-9, 0.9, 20)
